@@ -105,6 +105,8 @@ type Object struct {
 	label  string
 	// provenance for diagnostics
 	elem types.Type
+	// symbolic write log (see memory.go)
+	sym []symCell
 }
 
 func (o *Object) String() string {
@@ -113,6 +115,7 @@ func (o *Object) String() string {
 
 func (o *Object) clone() *Object {
 	n := &Object{id: o.id, size: o.size, ro: o.ro, dead: o.dead, label: o.label, elem: o.elem}
+	n.sym = append([]symCell(nil), o.sym...)
 	if o.base != nil {
 		n.base = append([]byte(nil), o.base...)
 	}
